@@ -9,6 +9,8 @@ TABLE = [
     (r"/ by 0|% by 0|attempt to divide by zero|attempt to calculate the remainder with a divisor of zero|division by zero", "zerodiv"),
     (r"attempt to (add|subtract|multiply|negate|shift left|shift right) with overflow|attempt to (divide|calculate the remainder) with overflow|overflow", "overflow"),
     (r"stack overflow|has overflowed its stack", "stack"),
+    (r"cannot be made into|could not be used to index|invalid power|is an invalid radix|radix must lie|is an invalid index", "conversion"),
+    (r"is invalid\. \(valid ops|cannot compare|is not a function|does not exist on|load before store|cannot index with|not a HeapPrimitive|cannot negate|can only negate|can only test booleans|boolean comparison on a non-boolean|mismatched types in assignment|Cannot perform a vector operation on a non-vector|not a vector|non-map|invalid binary operation|not an? (Int|Float|BigInt|Bool)|has not been mapped|argument does not exist|unreachable code", "dyntype"),
 ]
 
 
